@@ -66,6 +66,15 @@ def r20_1(ctx):
     rts = shared.ret_terms(ctx, b)
     ok = False
     for t in rts:
+        if is_call(strip_all(t), 'From::from') and len(strip_all(t)[2]) == 1:
+            # Self::from(path): the audited `impl From<Path> for PathBuilder` wraps the path as it is
+            fb = [b2 for q2, b2 in ctx.F.bodies.items() if q2.endswith('::from') and 'PathBuilder' in q2 and 'From' in q2]
+            wraps = False
+            for b2 in fb:
+                r2 = shared.ret_terms(ctx, b2)
+                wraps = len(r2) == 1 and r2[0][0] == 'agg' and r2[0][2].endswith('PathBuilder') and dict(r2[0][4]).get('path') == ('param', 1)
+            if wraps:
+                t = ('agg', 'adt', PB.rstrip(':'), 'PathBuilder', (('path', strip_all(t)[2][0]),))
         if t[0] == 'agg' and t[2].endswith('PathBuilder'):
             p = dict(t[4]).get('path')
             if p and p[0] == 'agg':
@@ -76,7 +85,7 @@ def r20_1(ctx):
     # finish(): returns self.path
     b = ctx.body(PB + 'finish', R)
     rts = shared.ret_terms(ctx, b)
-    ok = len(rts) == 1 and rts[0] == ('field', ('param', 1), 'path', 'raqote::path_builder::PathBuilder', None)
+    ok = len(rts) == 1 and strip_all(rts[0]) == ('field', ('param', 1), 'path', 'raqote::path_builder::PathBuilder', None)
     ctx.check(ok, R, 'path_builder::PathBuilder::finish|identity', b.loc(), 'finish() returns self.path', 'finish() returns %s' % [fmt(b, t) for t in rts])
 
 
@@ -86,8 +95,43 @@ def r20_2(ctx):
     an = ctx.an(b)
     seq = shared.linear_calls(ctx, b)
     if seq is None:
-        ctx.fail(R, 'path_builder::PathBuilder::rect|linear', b.loc(), 'rect() is not straight-line code any more: cannot recover the op order (fail closed)')
-        return
+        # the three line_to calls rolled up: move_to(..); for &(cx, cy) in [(..), (..), (..)].iter() { line_to(cx, cy) }; close()
+        cs0 = [(bi, d, ct) for bi, d, ct in calls_in(ctx, b) if d and d.startswith(PB)]
+        mv = [c for c in cs0 if c[1] == PB + 'move_to']
+        lt = [c for c in cs0 if c[1] == PB + 'line_to']
+        cl = [c for c in cs0 if c[1] == PB + 'close']
+        loops = an.cfg.loops()
+        arr = None
+        if len(mv) == 1 and len(lt) == 1 and len(cl) == 1 and len(cs0) == 3 and any(lt[0][0] in bl and mv[0][0] not in bl and cl[0][0] not in bl for bl in loops.values()) \
+                and an.cfg.dominates(mv[0][0], lt[0][0]) and an.cfg.dominates(lt[0][0], cl[0][0]) is not None:
+            xa, ya = strip_all(lt[0][2][2][1]), strip_all(lt[0][2][2][2])
+            def elem_of(t, comp):
+                while t[0] == 'deref':
+                    t = strip_all(t[1])
+                if t[0] == 'field' and t[2] == comp and t[3] == '(tuple)':
+                    e = strip_all(t[1])
+                    while e[0] == 'deref':
+                        e = strip_all(e[1])
+                    if e[0] == 'field' and e[4] == 'Some' and is_call(e[1], 'Iterator::next'):
+                        return e[1]
+                return None
+            nx, ny = elem_of(xa, '0'), elem_of(ya, '1')
+            if nx is not None and nosite(nx) == nosite(ny):
+                D = Deps(an)
+                D.closure(nx[2][0])
+                arrs = [x for x in D.visited if x[0] == 'agg' and x[1] == 'array']
+                plain_iter = not any(is_call(x, 'Iterator::rev', 'Iterator::skip', 'Iterator::take', 'Iterator::step_by', 'Iterator::filter', 'Iterator::chain') for x in D.visited)
+                if len(arrs) == 1 and plain_iter:
+                    arr = arrs[0]
+        if arr is None:
+            ctx.fail(R, 'path_builder::PathBuilder::rect|linear', b.loc(), 'rect() is not straight-line code any more: cannot recover the op order (fail closed)')
+            return
+        seq = [mv[0]]
+        for _i, e in arr[4]:
+            e = strip_all(e)
+            comps = dict(e[4]) if e[0] == 'agg' and e[1] == 'tuple' else {}
+            seq.append((lt[0][0], PB + 'line_to', ('call', PB + 'line_to', (lt[0][2][2][0], comps.get('0', ('unknown',)), comps.get('1', ('unknown',))), lt[0][0])))
+        seq.append(cl[0])
     x, y, w, h = (Poly.leaf(('param', i)) for i in (2, 3, 4, 5))
     want = [('move_to', (x, y)), ('line_to', (x + w, y)), ('line_to', (x + w, y + h)), ('line_to', (x, y + h)), ('close', ())]
     got = []
@@ -135,16 +179,13 @@ def r20_2(ctx):
     if array_plain:
         ctx.check(all(array_plain), R, key + '|corners computed directly', b.loc(), 'every corner is Point::new of x, y, x + width, y + height as written',
                   'the corners appended by rect() are equal to the rectangle\'s corners as real numbers but are not computed as plain sums of the arguments (a corner derived from another corner, e.g. (x + width) - width, is not the requested corner in f32 for large or fractional values)')
-    raw_args = {}
-    for bi, d, ct in seq:
-        if d and d.startswith(PB):
-            raw_args[bi] = ct[2][1:]
+    raw_list = [ct[2][1:] for bi, d, ct in seq if d and d.startswith(PB)]
     for i, ((wn, wa), (gn, ga, bi)) in enumerate(zip(want, got)):
         ok = wn == gn and tuple(wa) == tuple(ga)
-        if ok and bi in raw_args and len(raw_args) == 5:
-            okp = all(plain(a) for a in raw_args[bi])
+        if ok and len(raw_list) == 5 and not array_plain:
+            okp = all(plain(a) for a in raw_list[i])
             ctx.check(okp, R, key + '|op%d computed directly' % i, call_line(b, bi), 'corner coordinates are x, y, x + width, y + height as written',
-                      'op %d is %s(%s): equal to the corner as a real number but not computed as a plain sum of the arguments — in f32 a corner derived from another corner ((x + width) - width) is not the requested corner for large or fractional values' % (i, gn, ', '.join(fmt(b, a)[:60] for a in raw_args[bi])))
+                      'op %d is %s(%s): equal to the corner as a real number but not computed as a plain sum of the arguments — in f32 a corner derived from another corner ((x + width) - width) is not the requested corner for large or fractional values' % (i, gn, ', '.join(fmt(b, a)[:60] for a in raw_list[i])))
         ctx.check(ok, R, key + '|op%d' % i, call_line(b, bi),
                   'op %d is %s(%s)' % (i, gn, ', '.join(p.show(b) for p in ga)),
                   'op %d is %s(%s), expected %s(%s)' % (i, gn, ', '.join(p.show(b) for p in ga), wn, ', '.join(p.show(b) for p in wa)))
@@ -160,14 +201,25 @@ def _check_op_mapper(ctx, R, b, key, op_t, is_xform):
     m = ms[0]
     ctx.check(m.otherwise is None, R, key + '|no-wildcard', b.loc(), 'no live wildcard arm', 'match has a live wildcard arm')
     npts = {'MoveTo': 1, 'LineTo': 1, 'QuadTo': 2, 'CubicTo': 3, 'Close': 0}
-    # the value returned on each arm: find the def of _0 in the arm region
+    # the value returned on each arm: the definition, in the arm's region, of _0 or of a local that is moved into _0
+    # (the result of an inlined helper)
+    ret_locals = [0]
+    for _ in range(4):
+        for d in list(an.defs_of.get(ret_locals[-1], [])):
+            if d.kind == 'assign' and not d.partial and d.node['rv'].get('k') == 'use' and d.node['rv']['o'].get('k') in ('move', 'copy') and not d.node['rv']['o']['p']['pr']:
+                src = d.node['rv']['o']['p']['l']
+                if src not in ret_locals:
+                    ret_locals.append(src)
     n = 0
     for v, tgt in m.arms.items():
         region = arm_region(an.cfg, m.bb, tgt)
         rt = None
-        for d in an.defs_of.get(0, []):
-            if d.bb in region:
-                rt = an.def_term(d)
+        for rl in ret_locals:
+            for d in an.defs_of.get(rl, []):
+                if d.bb in region and not d.partial and d.kind == 'assign':
+                    t0 = an.def_term(d)
+                    if t0[0] == 'agg':
+                        rt = t0
         k = key + '|arm ' + v
         if rt is None or rt[0] != 'agg' or rt[2] != PATHOP:
             ctx.fail(R, k, b.loc(), 'arm %s does not build a PathOp' % v)
@@ -205,9 +257,19 @@ def r20_3(ctx):
         ctx.check(ok_w, R, key + '|winding', b.loc(), 'winding forwarded from self', 'result winding is %s, not self.winding' % fmt(b, w))
         o = f.get('ops')
         # ops = collect(map(into_iter(self.ops), closure[&transform]))
-        shape = (is_call(o, 'Iterator::collect') and is_call(o[2][0], 'Iterator::map')
-                 and is_call(o[2][0][2][0], 'IntoIterator::into_iter')
-                 and o[2][0][2][0][2][0] == ('field', ('param', 1), 'ops', 'raqote::path_builder::Path', None))
+        SELF_OPS = ('field', ('param', 1), 'ops', 'raqote::path_builder::Path', None)
+        def over_ops(it):
+            # self.ops.into_iter(), or self.ops.iter() (the ops are Copy: mapping copies is mapping the ops)
+            it = strip_all(it)
+            if is_call(it, 'IntoIterator::into_iter') and len(it[2]) == 1 and it[2][0] == SELF_OPS:
+                return True
+            if is_call(it, '::iter') and len(it[2]) == 1:
+                a0 = strip_all(it[2][0])
+                while a0[0] in ('ref', 'deref') or is_call(a0, 'Deref::deref'):
+                    a0 = strip_all(a0[1] if a0[0] in ('ref', 'deref') else a0[2][0])
+                return a0 == SELF_OPS
+            return False
+        shape = (is_call(o, 'Iterator::collect') and is_call(o[2][0], 'Iterator::map') and over_ops(o[2][0][2][0]))
         clo = o[2][0][2][1] if shape else None
         shape = shape and clo[0] == 'agg' and clo[1] == 'closure' and strip_all(clo[4][0][1]) == ('param', 2)
         inplace = False
@@ -243,7 +305,7 @@ def r20_3(ctx):
         elif shape:
             cb = ctx.body(clo[2], R)
             crt = shared.ret_terms(ctx, cb)
-            okc = (len(crt) == 1 and is_call(crt[0], 'PathOp::transform') and crt[0][2][0] == ('param', 2)
+            okc = (len(crt) == 1 and is_call(crt[0], 'PathOp::transform') and strip_all(crt[0][2][0]) in (('param', 2), ('deref', ('param', 2)))
                    and shared.upvar_index(crt[0][2][1]) == 0)
             ctx.check(okc, R, key + '|closure', cb.loc(), 'closure = |op| op.transform(transform)', 'closure returns %s, not op.transform(transform)' % [fmt(cb, t) for t in crt])
     elif len(rts) == 1 and _whole_self(an, rts[0]) is not None:
@@ -318,7 +380,7 @@ def r20_4(ctx):
     sw = strip_all(f['sweep_angle'])
     ctx.check(is_call(sw, 'Angle::<T>::radians') and sw[2] == (P(6),), R, key + '|sweep_angle', b.loc(), 'sweep_angle = radians(sweep_angle)', 'Arc.sweep_angle is %s, expected Angle::radians(sweep_angle)' % fmt(b, sw))
     xr = strip_all(f['x_rotation'])
-    ctx.check(is_call(xr, '::zero') and not xr[2], R, key + '|x_rotation', b.loc(), 'x_rotation = 0', 'Arc.x_rotation is %s, expected Angle::zero()' % fmt(b, xr))
+    ctx.check((is_call(xr, '::zero') and not xr[2]) or (is_call(xr, 'Angle::<T>::radians') and len(xr[2]) == 1 and const_val(xr[2][0]) == 0.0), R, key + '|x_rotation', b.loc(), 'x_rotation = 0', 'Arc.x_rotation is %s, expected Angle::zero()' % fmt(b, xr))
     # line_to(a.from()) dominates for_each_quadratic_bezier(a, closure)
     cs = calls_in(ctx, b)
     lts = [(bi, ct) for bi, d, ct in cs if d == PB + 'line_to']
